@@ -127,14 +127,7 @@ def run(chk, w):
 
     # ---- FOLD
     chk.rule("C02-FOLD", "every byte stored into the packet buffer is folded into the CRC accumulator in the same block")
-    pk_stores = []
-    for i in asm.all_insts():
-        if i.op == "store":
-            g = asm.resolve(i["ptr"])
-            if g is not None and g.op == "getelementptr" and g["idx"]:
-                b = _array_base(asm, g)
-                if b is not None and b.op == "alloca" and b["aty"].startswith("["):
-                    pk_stores.append((i, g, b))
+    pk_stores = packet_stores(P, asm)
     chk.floor("packet_buffer_stores", len(pk_stores), 1)
     for (s, g, b) in pk_stores:
         same_block = [fd for fd in folds if fd[0].bb is s.bb and fd[0].idx > s.idx]
@@ -790,17 +783,34 @@ def delim_standalone(chk, w, rid):
                     cmps.setdefault(cv & 0xff, []).append(i)
     reads = {s.id for s in asm.all_insts() if s.op == "store" and s["ptr"].get("k") == "inst" and s["ptr"]["id"] in data_cells and
              s["val"].get("k") == "inst" and asm.insts[s["val"]["id"]].op == "call"}
-    pk_stores = []
-    for i in asm.all_insts():
-        if i.op == "store":
-            g = asm.resolve(i["ptr"])
-            if g is not None and g.op == "getelementptr" and g["idx"]:
-                b = _array_base(asm, g)
-                if b is not None and b.op == "alloca" and b["aty"].startswith("["):
-                    pk_stores.append((i, g, b))
+    pk_stores = packet_stores(P, asm)
     if not pk_stores or not reads:
         raise AnalysisBroken("packet buffer stores / byte reads not found in %s" % asm.name)
     delim_rule(chk, asm, rid, cmps, reads, pk_stores, MAGIC)
+
+
+def packet_stores(P, asm):
+    """stores into a local array of the assembler: (store, address computation or None, array) - by subscript, or through a running write pointer that only
+    ever points into that array (`*write_pos = data; write_pos++`)"""
+    from .. import intervals
+    out = []
+    pc = intervals.pointer_cells(P, asm)
+    for i in asm.all_insts():
+        if i.op != "store":
+            continue
+        g = asm.resolve(i["ptr"])
+        if g is not None and g.op == "getelementptr" and g["idx"]:
+            b = _array_base(asm, g)
+            if b is not None and b.op == "alloca" and b["aty"].startswith("["):
+                out.append((i, g, b))
+                continue
+        q = g
+        while q is not None and q.op in ("getelementptr", "bitcast"):
+            o_ = q["base"] if q.op == "getelementptr" else q["a"]
+            q = asm.resolve(o_) if o_.get("k") == "inst" else None
+        if q is not None and q.op == "load" and q["ptr"].get("k") == "inst" and q["ptr"]["id"] in pc and pc[q["ptr"]["id"]][0][0] == "L":
+            out.append((i, None, asm.insts[pc[q["ptr"]["id"]][0][1]]))
+    return out
 
 
 def _array_base(f, gep):
